@@ -15,7 +15,7 @@
 From Coq Require Import String List NArith ZArith Bool Lia.
 From ACH Require Import Arith ReaderSkel ReaderSkelFacts.
 From ACH Require Import TamperText TamperTextFacts TamperTextLift TruncBytes TruncUtf8 TruncUtf8Facts.
-From ACH Require Import Utf8Enc Utf8Prefix FramingBytes ArithFacts FieldsFacts.
+From ACH Require Import Utf8Enc Utf8Prefix FramingBytes ArithFacts FieldsFacts LayoutFacts.
 Import ListNotations.
 Local Open Scope nat_scope.
 Local Open Scope list_scope.
@@ -250,3 +250,67 @@ Proof.
 Qed.
 
 End Surgery.
+
+(* ------------------------------------------------------------------ *)
+(* the batch kind on byte slices does not see a character column >= 53   *)
+
+Section HdrKind.
+Hypothesis Hok : layout_ok L_BatchHeader = true.
+Hypothesis Hix : l_ix L_BatchHeader = IRune.
+Variable csec : cut.
+Hypothesis Hsec : find_key (l_cuts L_BatchHeader) "StandardEntryClassCode" = Some csec.
+Hypothesis Hhi : c_hi csec <= 53.
+
+Lemma parse_encode_gen L rs : l_ix L = IRune -> length rs = 94 ->
+  parse L (encode rs) = flat_map (parse_cut (units IRune (encode rs))) (l_cuts L).
+Proof. intros HL Hl. unfold parse. now rewrite rune_count_encode, Hl, Nat.eqb_refl, HL. Qed.
+
+Lemma lookup_parse_assigned_gen L rs g : layout_ok L = true -> l_ix L = IRune -> length rs = 94 ->
+  lookup (parse L (encode rs)) g = assigned (units IRune (encode rs)) (l_cuts L) g.
+Proof.
+  intros HLok HL Hl. rewrite (parse_encode_gen L rs HL Hl). destruct (layout_ok_facts L HLok) as [cs F].
+  now destruct (lookup_parse (units IRune (encode rs)) (l_cuts L) g (ok_cut_keys _ _ F)) as [-> _].
+Qed.
+
+(* a field whose cut does not contain the replaced column parses to the same value *)
+Lemma field_set_digit_out L rs col d g c' : layout_ok L = true -> l_ix L = IRune ->
+  valid rs = true -> length rs = 94 -> is_digit d = true ->
+  find_key (l_cuts L) g = Some c' -> (col < c_lo c' \/ c_hi c' <= col) ->
+  lookup (parse L (set_digit (encode rs) col d)) g = lookup (parse L (encode rs)) g.
+Proof.
+  intros HLok HL Hv Hl Hd Hg Hout. pose proof (is_digit_lt128 d Hd) as Hd'.
+  pose proof (column_set_digit_out rs col d (c_lo c') (c_hi c') Hv Hd Hout) as Hcol. unfold column in Hcol.
+  rewrite (set_digit_encode rs col d Hv Hd') in *.
+  rewrite (lookup_parse_assigned_gen L _ g HLok HL) by now rewrite length_set_nth.
+  rewrite (lookup_parse_assigned_gen L rs g HLok HL Hl). unfold assigned. rewrite Hg. unfold parse_cut.
+  destruct (c_const c'); [reflexivity|]. destruct (String.eqb (c_field c') ""); [reflexivity|].
+  now rewrite Hcol.
+Qed.
+
+Lemma kind_of_hdr_set_digit l col d : uline l -> 53 <= col -> is_digit d = true ->
+  kind_of_hdr (set_digit l col d) = kind_of_hdr l.
+Proof.
+  intros (Hw & H94 & _) Hc Hd. destruct (wf_decompose l Hw) as (rs & Hv & E & _). subst l.
+  rewrite rune_count_encode in H94. pose proof (is_digit_lt128 d Hd) as Hd'.
+  destruct (Nat.lt_ge_cases col (length rs)) as [Hlt|Hge].
+  2:{ rewrite (set_digit_encode rs col d Hv Hd'). unfold set_nth.
+      destruct (Nat.ltb_spec col (length rs)); [lia|reflexivity]. }
+  unfold kind_of_hdr.
+  rewrite (bytes_prefix_set_digit rs col d 50 3 Hv Hd' Hlt) by lia.
+  rewrite (bytes_prefix_set_digit rs col d 4 16 Hv Hd' Hlt) by lia.
+  now rewrite (gets_lookup _ _ _ (field_set_digit_out L_BatchHeader rs col d _ csec Hok Hix Hv H94 Hd Hsec ltac:(right; lia))).
+Qed.
+
+(* the lemma phase 6 named as missing, as stated there *)
+Theorem tamper_keeps_general T s site col d l : site_line s site = Some l ->
+  1 <= col -> is_digit d = true ->
+  (forall bi, site = SBatchHdr bi -> 53 <= col) ->
+  file_typed s = true -> utf8_records s -> bridge_okb T s = true ->
+  file_typed (tamper s site col d) = true /\ utf8_records (tamper s site col d) /\ bridge_okb T (tamper s site col d) = true.
+Proof.
+  intros Hsl Hc Hd Hh Ht Hu Hbr. apply (tamper_keeps T s site col d l Hsl Hc Hd); try assumption.
+  intros bi Hbi. pose proof (Hh bi Hbi) as H53. split; [exact H53|].
+  apply kind_of_hdr_set_digit; [exact (site_line_uline s site l Hu Hsl)|exact H53|exact Hd].
+Qed.
+
+End HdrKind.
